@@ -1,2 +1,2 @@
-import FrappyDrive.Util
 import FrappyDrive.C20
+import FrappyDrive.Util
